@@ -30,9 +30,9 @@ FORBIDDEN = re.compile(
 
 TRUSTED_BASE = [
     "Lean 4.33.0 kernel; axioms of every property theorem audited on this run: subset of {propext, Classical.choice, Quot.sound}",
-    "hand-written Lean model tied to /repo by differential execution (harness + Driver.lean JSON codec are trusted)",
-    "harness/extract_tables.py (T1 translator: emits literals from /repo source into Rpft/Gen/Tables.lean)",
-    "CPython str/dict/sorted semantics, pydantic, Jinja2, tablib/openpyxl/csv, networkx: modelled as parameters, exercised by the tie, not verified",
+    "hand-written Lean model tied to /repo by differential execution (harness, generators, canonicalisers and the Driver.lean JSON codec are trusted; the driver is the model compiled by the Lean compiler, trusted to agree with the kernel)",
+    "T1 translators harness/extract_tables.py + harness/tables/*.py + harness/t1lib.py (emit literals read from the runtime values / probed behaviour / source of /repo into Rpft/Gen/Tables.lean)",
+    "CPython str/dict/sorted/int/float semantics, pydantic, Jinja2, openpyxl (XLSX), networkx, the C implementations of csv/json (their formats are modelled and tied, not derived): modelled as parameters or tied models, exercised on every run, not verified",
 ]
 
 
